@@ -131,6 +131,7 @@ pub fn run(a: &Args) {
         concs.push(c);
     }
     let mut cases = 0usize;
+    let tmp = crate::cmd_codec::TmpDir::new(&out, "crash");
     for wi in 0..nwork {
         let i = wi % chunks;
         let c = &concs[i];
@@ -152,8 +153,15 @@ pub fn run(a: &Args) {
             let sb = replay_prefix(&w.shp_ops, si, sc_);
             let xb = replay_prefix(&w.shx_ops, xi, xc_);
             let res = traverse(c, LogSource::new(sb.clone()), if with_idx { Some(LogSource::new(xb.clone())) } else { None }, t, random, n);
+            // the same persisted bytes as files, opened by path (from_path picks the .shx up by itself)
+            let p = crate::cmd_codec::path_variant(&tmp.0, "k", si + xi);
+            let _ = std::fs::write(&p, &sb);
+            if with_idx { let _ = std::fs::write(p.with_extension("shx"), &xb); } else { let _ = std::fs::remove_file(p.with_extension("shx")); }
+            let by_path = crate::cmd_codec::read_path_route(c, &p, t, true, random, n, false);
+            let _ = std::fs::remove_file(&p);
+            let _ = std::fs::remove_file(p.with_extension("shx"));
             tr.emit(json!({"ev": "crashread", "i": si, "c": sc_, "j": xi, "d": xc_, "withIdx": with_idx, "random": random,
-                           "shpLen": sb.len(), "shxLen": xb.len(), "res": res}));
+                           "shpLen": sb.len(), "shxLen": xb.len(), "res": res, "byPath": by_path}));
         };
         for &s in &sc {
             // without the index the .shx plays no part
